@@ -198,8 +198,78 @@ Lemma final_clean_no_error lines : forall st st', final_state st lines = Some st
 Proof.
   induction lines as [|l lines IH]; intros st st' H Hc.
   - cbn [final_state] in H. inversion H; subst. cbn [split_lines snd]. unfold clean in Hc.
-    apply andb_true_iff in Hc as [Hc _]. apply andb_true_iff in Hc as [Hc _]. rewrite Hc. reflexivity.
+    apply andb_true_iff in Hc as [Hc _]. apply andb_true_iff in Hc as [Hu Hc]. rewrite Hc, Hu. reflexivity.
   - cbn [final_state split_lines] in *. destruct (split_step st l) as [st1|eq st1|e]; [| |discriminate].
     + apply (IH st1 st' H Hc).
     + pose proof (IH st1 st' H Hc) as R. destruct (split_lines st1 lines) as [ys e1]. exact R.
+Qed.
+
+(* ================================================================== accepted by the splitter = ends between statements (fix 85765d5) *)
+(* in every state the loop can reach, "no open bracket and no open fence" means the buffer is empty *)
+Definition reach_inv (st : sstate) : Prop := unmatched st = 0 -> complete st = true -> buffer st = [].
+Lemma reach_inv_s0 : reach_inv s0.
+Proof. intros _ _. reflexivity. Qed.
+Lemma split_step_inv st line :
+  match split_step st line with StCont st' | StYield _ st' => reach_inv st' | StRaise _ => True end.
+Proof.
+  unfold split_step. destruct (startswith "```" line && match buffer st with [] => true | _ => false end).
+  - intros _ Hc. cbn [complete] in Hc. discriminate.
+  - destruct (count_parens (unmatched st) line) as [u|]; [|exact I].
+    destruct ((u =? 0) && (if startswith "```" line then true else complete st)) eqn:E.
+    + destruct (is_blank _); [intros _ _; reflexivity|]. destruct (stmt_ok _); [intros _ _; reflexivity|]. destruct (stmt_ok _); exact I.
+    + intros Hu Hc. cbn [unmatched complete] in Hu, Hc. subst u. rewrite Hc in E. discriminate.
+Qed.
+
+Lemma accepted_final_clean lines : forall st, reach_inv st -> snd (split_lines st lines) = None ->
+  exists st', final_state st lines = Some st' /\ clean st' = true.
+Proof.
+  induction lines as [|l lines IH]; intros st Hi H.
+  - cbn [split_lines snd] in H. exists st. split; [reflexivity|]. unfold clean.
+    destruct (complete st) eqn:Ec; [|discriminate]. cbn [negb] in H. destruct (unmatched st =? 0) eqn:Eu; [|discriminate].
+    apply Nat.eqb_eq in Eu. rewrite (Hi Eu Ec). reflexivity.
+  - cbn [split_lines final_state] in *. pose proof (split_step_inv st l) as S. destruct (split_step st l) as [st1|eq st1|e].
+    + apply (IH st1 S H).
+    + apply (IH st1 S). destruct (split_lines st1 lines) as [ys e1]. exact H.
+    + discriminate.
+Qed.
+
+(* a script the splitter accepts ends between statements: nothing is left open, nothing is buffered *)
+Theorem accepted_script_clean s : snd (split_M s) = None -> exists st, final_state s0 (model_lines s) = Some st /\ clean st = true.
+Proof. apply (accepted_final_clean _ s0 reach_inv_s0). Qed.
+
+(* … so "s1 is accepted by the splitter" is all that statement independence needs (before fix 85765d5 it was not enough:
+   a script that leaves a fence open was accepted and swallowed whatever followed) *)
+Theorem statements_independent_accepted s1 s2 b1 b2 :
+  s1 <> "" -> ends_sep s1 = false -> snd (split_M s1) = None ->
+  map_p parse_equation_M (fst (split_M s1)) = POk b1 -> map_p parse_equation_M (fst (split_M s2)) = POk b2 ->
+  parse_model_nocheck (s1 ++ nl_s ++ s2) = finish_parse (b1 ++ b2)%list (snd (split_M s2)) /\
+  parse_model_nocheck s2 = finish_parse b2 (snd (split_M s2)) /\
+  parse_model_nocheck s1 = finish_parse b1 None.
+Proof.
+  intros Hne He Hs H1 H2. destruct (accepted_script_clean s1 Hs) as (st & Hf & Hc).
+  destruct (statements_independent s1 s2 st b1 b2 Hne He Hf Hc H1 H2) as (A & B & C). auto.
+Qed.
+
+(* an unclosed fence: the splitter ends with ParserError, whatever was yielded before *)
+Lemma open_fence_error lines : forall st st', final_state st lines = Some st' -> complete st' = false ->
+  snd (split_lines st lines) = Some ParserError.
+Proof.
+  induction lines as [|l lines IH]; intros st st' H Hc.
+  - cbn [final_state] in H. inversion H; subst. cbn [split_lines snd]. rewrite Hc. reflexivity.
+  - cbn [final_state split_lines] in *. destruct (split_step st l) as [st1|eq st1|e]; [| |discriminate].
+    + apply (IH st1 st' H Hc).
+    + pose proof (IH st1 st' H Hc) as R. destruct (split_lines st1 lines) as [ys e1]. exact R.
+Qed.
+
+(* the script is rejected whole: parse_model never returns a symbol list; when every statement before parses, the error is
+   the splitter's ParserError *)
+Theorem unclosed_fence_rejected chk cs s st :
+  final_state s0 (model_lines s) = Some st -> complete st = false ->
+  (forall syms, parse_model_M chk cs s <> POk syms) /\
+  (forall b, map_p parse_equation_M (fst (split_M s)) = POk b -> parse_model_nocheck s = PErr ParserError).
+Proof.
+  intros Hf Hc. pose proof (open_fence_error _ s0 st Hf Hc) as E. fold (split_M s) in E. split.
+  - intros syms. unfold parse_model_M. destruct (split_M s) as [stmts serr]. cbn [snd] in E. subst serr.
+    destruct (parse_statements chk cs stmts [] false) as [[by_eq pb]| |]; discriminate.
+  - intros b Hb. rewrite parse_model_by_statements, Hb, E. reflexivity.
 Qed.
